@@ -112,6 +112,14 @@ def body(ctx, shape):
             setattr(F, k, orig[k])
     ctx.observe("calls", [(c["name"], c["offset"], c["length"], c["read"]) for c in calls])
     ctx.observe("outcome", outcome)
+    # no position is handed to the same scanner function twice (a retry of a failed sub-parse, or a
+    # re-scan from a sibling, is what makes the cost multiply per nesting level)
+    seen_at = set()
+    for c in calls:
+        key = (c["name"], c["offset"])
+        ctx.require(key not in seen_at, "scanner-function-called-twice-on-the-same-position")
+        seen_at.add(key)
+    ctx.require(len(calls) <= 2 * n + 2, "more-scanner-calls-than-input-characters-allow")
     for c in calls:
         if c["read"] is not None:
             ctx.require(ctx.all(c["read"] >= 1, c["read"] <= c["length"]), "scanner-call-makes-no-progress")
